@@ -64,7 +64,7 @@ def jTxn (t : Txn) : Json :=
     Json.num b.retry, Json.num b.segRetry, jB b.sentAll, Json.num b.lastSeq, Json.num b.initSeq,
     jNatOpt b.window, Json.num b.segSize, Json.num b.segCount, Json.num b.maxApdu,
     jNatOpt b.maxSegs, jB b.sra, jNatOpt b.timer,
-    match b.ctx with
+    match (if b.st = .awaitResp then none else b.ctx) with   -- see tsmlock._digest
     | none => Json.null
     | some c => Json.arr #[Json.num c.ty, Json.num c.invokeId, Json.num c.service,
                            Json.num c.data.length, Json.num (fnv64 c.data)]]
